@@ -38,6 +38,7 @@ type Config struct {
 	MaxLen               int
 	RoundModel           bool
 	NonFiniteIsViolation bool
+	RealInputs           bool
 	Workers              int
 	TimeoutMs            int
 	Solver               SolverKind
@@ -59,6 +60,8 @@ type Engine struct {
 	initCtx       *TermCtx
 	initObjs      int
 	initOK        map[string]bool
+	fnameOnce     sync.Once
+	fnames        map[string]bool
 
 	mu       sync.Mutex
 	cond     *sync.Cond
@@ -89,6 +92,7 @@ type HarnessStats struct {
 	InexactSites                     map[string]int
 	Ends                             map[string]int
 	Funcs                            map[string]bool
+	Replaced                         map[string]bool
 	Violations                       map[string]*Violation
 	Samples                          []map[string]interface{}
 	MaxSteps                         int
@@ -307,6 +311,16 @@ func (e *Engine) abort(msg string) {
 	e.cond.Broadcast()
 }
 
+func (e *Engine) funcExists(name string) bool {
+	e.fnameOnce.Do(func() {
+		e.fnames = map[string]bool{}
+		for fn := range ssautil.AllFunctions(e.prog) {
+			e.fnames[fn.String()] = true
+		}
+	})
+	return e.fnames[name]
+}
+
 // ---- monitors ----
 
 func (e *Engine) noteFunc(s *State, fi *funcInfo) {
@@ -426,6 +440,7 @@ func (e *Engine) RunHarness(spec HarnessSpec) (*HarnessStats, error) {
 	e.cfg.Domain = spec.Domain
 	e.cfg.RoundModel = spec.RoundModel
 	e.cfg.NonFiniteIsViolation = spec.NonFinite
+	e.cfg.RealInputs = spec.RealInputs
 	if spec.MaxSteps > 0 {
 		e.cfg.MaxSteps = spec.MaxSteps
 	}
@@ -469,6 +484,7 @@ func (e *Engine) worker(w int, fn *ssa.Function, spec HarnessSpec) {
 		e.abort("cannot start solver: " + err.Error())
 		return
 	}
+	solver.nlsat = spec.Domain == DomainX
 	defer func() {
 		e.mu.Lock()
 		e.stats.Sat += solver.nSat
@@ -568,6 +584,12 @@ func (e *Engine) runPath(ctx *TermCtx, solver *Solver, fn *ssa.Function, spec Ha
 	st.Ends[end]++
 	for k := range s.funcs {
 		st.Funcs[k] = true
+	}
+	for k := range run.replaced {
+		if st.Replaced == nil {
+			st.Replaced = map[string]bool{}
+		}
+		st.Replaced[k] = true
 	}
 	for _, v := range run.violations {
 		sig := v.Sig()
